@@ -18,7 +18,7 @@ type lockState struct {
 	shared     map[*Value]string
 	sharedMaps map[*MapV]string
 	held       map[heldKey]string // (mutex cell, thread) -> "W" or "R"
-	names      map[*Value]string // mutex cell -> name
+	names      map[*Value]string  // mutex cell -> name
 	on         bool
 }
 
